@@ -122,6 +122,31 @@ def run(F, R):
                     obs.append(terms.render(hv, hv._trace_rv(s_["r"], None, 0), W, {}))
         R.check("C13-R4", "observer-owns-sender", len(mk) == 1 and len(obs) == 1 and re.fullmatch(r"StateMachineProgressObserver\{channel\([^)]*\)\.0\}", obs[0]) is not None, str(obs), "the progress sender is not moved into the observer: %s" % obs)
 
+    # ---------------------------------------------------------------- R5 the emission future ends with a flush (handshake)
+    R.rule("C13-R5", "the futures built by Yield::yield_/yield_all (and by the progress observer) complete only after the rendezvous channel was flushed: the sink operation is send/send_all, or every feed/start_send is followed by flush on all paths")
+    FLUSHING = ("send", "send_all", "flush", "close")
+    NONFLUSHING = ("feed", "start_send", "try_send", "poll_ready", "start_send_unpin")
+    n_ops = 0
+    for b in c.bodies:
+        idn = b["id"].replace("omaha_client::", "")
+        own = (idn.startswith("async_generator::") and ("yield_" in idn or "yield_all" in idn)) or ("StateMachineProgressObserver" in (W.by_id.get(b.get("parent") or "", {}).get("impl_self") or "") or "StateMachineProgressObserver" in (b.get("impl_self") or ""))
+        if not own or idn.startswith("async_generator::tests") or "::tests::" in idn:
+            continue
+        bv = BV.of(b)
+        ops = [(bi, t) for bi, t in bv.calls() if (lib.norm(t.get("callee") or "").startswith("futures::SinkExt::") or lib.norm(t.get("callee") or "").startswith("futures::Sink::") or "mpsc::Sender" in lib.norm(t.get("callee") or "")) and t.get("name") in FLUSHING + NONFLUSHING]
+        fl = [bi for bi, t in ops if t["name"] in ("flush", "close", "send", "send_all")]
+        for bi, t in ops:
+            n_ops += 1
+            key = "%s:%s" % (idn.split("::{closure")[0].split("::")[-1] + ("{async}" if "{closure" in idn else ""), t["name"])
+            if t["name"] in FLUSHING:
+                R.check("C13-R5", "flushing-op:" + key, True, "%s completes after the receiver took the item(s)" % t["name"])
+            else:
+                later = [x for x in fl if x != bi]
+                esc = set(bv.exits()) & bv.reach_from([bi], avoid=later)
+                R.check("C13-R5", "flushing-op:" + key, bool(later) and not esc, "%s followed by a flush on every path" % t["name"],
+                        "`%s` queues the item without waiting for the consumer and no flush follows on every path: code after the emission can run before the event was taken" % t["name"], lib.loc(bv, bi))
+    R.floor("C13-R5", "sink operations in the emission helpers", n_ops, 3)
+
 
 def _mentions(x, l):
     if isinstance(x, dict):
